@@ -41,6 +41,17 @@ where
     Observable::create(move |s| {
       let sctl = StreamController::new(s);
       let timer = Arc::new(RwLock::new(None::<Subscription<'a>>));
+      {
+        // the pending timer ends with the stream (terminal or unsubscribe), not one
+        // period later when it would have fired
+        let timer = Arc::clone(&timer);
+        sctl.set_on_finalize(move || {
+          let t = timer.write().unwrap().take();
+          if let Some(t) = t {
+            t.unsubscribe();
+          }
+        });
+      }
       let scheduler_ctor = scheduler_ctor.clone();
 
       let sctl_next = sctl.clone();
@@ -58,7 +69,7 @@ where
 
           sctl_next.sink_next(x);
 
-          {
+          if sctl_next.is_subscribed() {
             let sctl = sctl_next.clone();
             let scheduler_ctor = scheduler_ctor.clone();
             *timer.write().unwrap() = Some(
